@@ -23,11 +23,13 @@ def trial_order(run, snap):
         by_y.setdefault(np.asarray(it.y, dtype=np.double).tobytes(), []).append((it.x, it.z))
     xs = []
     twins = False
-    for (y, v) in log:
+    unmatched = []          # log positions whose point is not stored (a local refinement overwrites the best item's point)
+    for pos, (y, v) in enumerate(log):
         c = by_y.get(np.asarray(y, dtype=np.double).tobytes())
         if not c:
-            xs = None
-            break
+            xs.append(None)
+            unmatched.append(pos)
+            continue
         if len(c) > 1:
             # several coordinates share one evaluated point (N >= 2: one grid cell; N = 1: adjacent doubles): tell
             # them apart by the stored value; trials with equal point AND equal value are interchangeable
@@ -38,9 +40,17 @@ def trial_order(run, snap):
                 break
             xs.append(c.pop(k)[0])
         else:
-            if c[0][1] != v and not (c[0][1] is None):
-                pass
             xs.append(c.pop(0)[0])
+    if xs is not None and unmatched:
+        # the items nobody claimed, matched to the unmatched evaluations by their stored value (must be unambiguous)
+        left = [e for lst in by_y.values() for e in lst]
+        for pos in unmatched:
+            cand = [e for e in left if e[1] == log[pos][1]]
+            if len(cand) != 1:
+                xs = None
+                break
+            xs[pos] = cand[0][0]
+            left.remove(cand[0])
     if xs is not None and len(set(xs)) == len(xs) == len(inner):
         if not twins:
             return xs
